@@ -108,7 +108,7 @@ func init() {
 }
 
 func c13Gen(tier string, emit func(c13Case)) {
-	emit(c13Case{Slot: "placeholder-only", Texts: []string{"ex.name", "ex.num", "ex.flag", "ex.missing", "ex.big"}})
+	emit(c13Case{Slot: "placeholder-only", Texts: []string{"ex.name", "ex.num", "ex.flag", "ex.missing", "ex.big", "ex.i53", "ex.i64", "ex.m64", "ex.ns", "ex.zero", "ex.neg"}})
 	for _, slot := range c13Slots {
 		for _, tok := range c13Tokens {
 			emit(c13Case{Slot: slot, Texts: c13Variants(tok)})
@@ -149,6 +149,8 @@ func c13Graph(special string) *Graph {
 	g := &Graph{}
 	// n0 fails minCount (no p1); its list value differs from the special one. n1 passes both.
 	g.Add(nid(0), EX+"T").P(EX+"name", "zero %d \"q\"").P(EX+"val", "different value").P(EX+"num", 7).P(EX+"flag", true).P(EX+"big", 123456789012)
+	// integers beyond the range a float64 holds exactly (identifiers, int64 bounds, nanosecond timestamps)
+	g.Nodes[0].P(EX+"i53", 9007199254740993).P(EX+"i64", 9223372036854775807).P(EX+"m64", -9223372036854775807).P(EX+"ns", 1700000000123456789).P(EX+"zero", 0).P(EX+"neg", -1)
 	g.Nodes[0].P(EX+"self", Ref(nid(0)))
 	n1 := g.Add(nid(1), EX+"T").P(EX+"name", "one").P(EX+"p1", "v").P(EX+"self", Ref(nid(1)))
 	if special != "" {
